@@ -401,6 +401,13 @@ func quirkKeys(name string, good *ecdsa.PrivateKey, bl int) []quirk {
 	add("a1-bits-padding-8", outer(v0, algStd, inner(tlv(0xa1, tlv(3, append([]byte{8}, pub[1:]...))))))
 	add("a1-bits-empty", outer(v0, algStd, inner(tlv(0xa1, tlv(3)))))
 	add("a1-twice", outer(v0, algStd, inner(a1, a1)))
+	// the embedded public key is not consulted: a point that lies on the curve but belongs to another scalar changes nothing
+	{
+		other := ecKey(name, new(big.Int).Add(good.D, big.NewInt(1)))
+		opub := append([]byte{0}, pointBytes(other.Curve, other.X, other.Y)...)
+		add("a1-point-of-another-key", outer(v0, algStd, inner(tlv(0xa1, tlv(3, opub)))))
+		add("a1-point-compressed", outer(v0, algStd, inner(tlv(0xa1, tlv(3, append([]byte{0, 2}, opub[2:2+(len(opub)-2)/2]...))))))
+	}
 	// the [0] wrapper
 	add("a0-and-a1", outer(v0, algStd, inner(a0, a1)))
 	add("a1-then-a0", outer(v0, algStd, inner(a1, a0)))
